@@ -30,6 +30,22 @@ def run(ctx):
                     cid = str(len(cases))
                     cases.append(['RUN', cid, s, vlib.esc(src), '-', '-'])
                     meta[cid] = f'reapply-{n}'
+        # look-ups into concatenations of 2..4 parts (lists, pairs, scalars): the walk over a concatenation borrows the operand
+        # stack as its work list and stops early on a hit — at every position of every part, by index and by key; plus the other
+        # consumers of that walk (length, equality; casts are outside the machine model of this check: `ApplyType` has no successor in absDepth)
+        parts = ['(1 2)', '(3 4)', '(5 6)', '7', '(:k = 8, 9)', '(:j = 1)', '(,)']
+        concs = []
+        for n_ in (2, 3, 4):
+            for combo in ([parts[:n_], parts[1:1 + n_], [parts[3]] + parts[:n_ - 1], parts[4:4 + n_] if n_ <= 3 else parts[3:7], [parts[0], parts[4], parts[1], parts[3]][:n_]]):
+                if len(combo) == n_:
+                    concs.append(' <> '.join(combo))
+        uses_c = ['(%s) . 0', '(%s) . 1', '(%s) . 2', '(%s) . 3', '(%s) . 5', '(%s) . 9', '(%s) . k', '(%s) . j', '(%s) . nokey', '(%s) .|', '((%s) <~ (0 .. 0)) . 0',
+                  '(%s) == (%s)', '(%s) <~ 2', '(%s) <~ :k', '100, (%s) . 0, 200', '{ $ . 0 } <~ (%s)', '{ k } <~ (%s)']
+        for cc_ in concs:
+            for u_ in uses_c:
+                for s_ in progsuite.STORES:
+                    cid = str(len(cases))
+                    cases.append(['RUN', cid, s_, vlib.esc(u_.replace('%s', cc_)), '-', '-']); meta[cid] = 'concat-lookups'
         # shapes the generator above avoids because the unchanged tree is known to break the property on them
         # (recorded in known_findings.json; reported on every run): an else-chain whose last arm is conditional,
         # `|>` without a conditional before it, a reapply in operand position
